@@ -2,12 +2,23 @@
 # Runs the repository's pinned test suite with the verification guard OFF (plain configuration).
 set -e
 B=${BASELINE_BUILD_DIR:-/tmp/pomerol_baseline_off}
-rm -rf "$B"
+rm -rf "$B" "$B.mpi"
 cmake -G Ninja -S /repo -B "$B" -DCMAKE_BUILD_TYPE=RelWithDebInfo -DTesting=ON -DCMAKE_CXX_FLAGS=-Wno-error > "$B.log" 2>&1
 cmake --build "$B" -j 16 >> "$B.log" 2>&1
 export OMPI_ALLOW_RUN_AS_ROOT=1 OMPI_ALLOW_RUN_AS_ROOT_CONFIRM=1
+# Open MPI session directories of this run live under a base of their own: the shared /tmp/ompi.<host>.<uid> is removed
+# by whichever MPI process finalises last, which can make the start-up of another one fail (see pmlib.mpi_runtime_init_failed)
+mkdir -p "$B.mpi"
+export OMPI_MCA_orte_tmpdir_base="$B.mpi"
 set +e
 ctest --test-dir "$B" -j8 --timeout 900 --output-junit "$B/junit.xml"
 rc=$?
-rm -rf "$B"
+if [ $rc -ne 0 ] && grep -q "orte_session_dir failed" "$B/Testing/Temporary/LastTest.log" 2>/dev/null; then
+    # the eight parallel tests still share $B.mpi among themselves: a test that died inside MPI_Init (before any of its
+    # own code ran) is run again, alone
+    echo "[baseline_off] a test died in the start-up of the Open MPI runtime; re-running the failed tests serially"
+    ctest --test-dir "$B" -j1 --timeout 900 --rerun-failed --output-junit "$B/junit-rerun.xml"
+    rc=$?
+fi
+rm -rf "$B" "$B.mpi"
 exit $rc
